@@ -70,6 +70,7 @@ def normalise_program(trees: Dict[str, ast.Module], pkgs: Set[str]) -> None:
             ho.bool_indexed_pairs(t)
             ho.genexp_for_loops(t)
             ho.for_break_else(t)
+            ho.search_loop_to_any(t)
             ho.first_match_loops(t)
             ho.dict_dispatch_calls(t)
             ho.unroll_constant_loops(t)
@@ -85,6 +86,8 @@ def normalise_program(trees: Dict[str, ast.Module], pkgs: Set[str]) -> None:
             _generators_to_procedures(t)
             _role_names(t)
             _unroll_table_loops(t)
+            ho.beta_reduce(t)
+            ho.constant_getattr(t)
             _departialize(t)
     inlined = False
     for stage in range(2):
@@ -391,7 +394,7 @@ def _unroll_table_loops(tree: ast.Module) -> None:
         counts[nm] = counts.get(nm, 0) + 1
         if nm.startswith("_") and not nm.startswith("__") and isinstance(val, ast.Tuple) and 1 <= len(val.elts) <= 6:
             rows = val.elts
-            if all(isinstance(r, ast.Tuple) and r.elts and all(isinstance(x, (ast.Name, ast.Constant, ast.Attribute)) for x in r.elts) for r in rows) and len({len(r.elts) for r in rows}) == 1:
+            if all(isinstance(r, ast.Tuple) and r.elts and all(isinstance(x, (ast.Name, ast.Constant, ast.Attribute, ast.Lambda)) for x in r.elts) for r in rows) and len({len(r.elts) for r in rows}) == 1:
                 tables[nm] = val
     tables = {k: v for k, v in tables.items() if counts.get(k) == 1}
     # tables that are locals of a function (bound once at its top level, possibly read by a closure of that function)
@@ -406,7 +409,7 @@ def _unroll_table_loops(tree: ast.Module) -> None:
             if nm in tables or not (isinstance(val, ast.Tuple) and 1 <= len(val.elts) <= 6):
                 continue
             rows = val.elts
-            if not (all(isinstance(r, ast.Tuple) and r.elts and all(isinstance(x, (ast.Name, ast.Constant, ast.Attribute)) for x in r.elts) for r in rows) and len({len(r.elts) for r in rows}) == 1):
+            if not (all(isinstance(r, ast.Tuple) and r.elts and all(isinstance(x, (ast.Name, ast.Constant, ast.Attribute, ast.Lambda)) for x in r.elts) for r in rows) and len({len(r.elts) for r in rows}) == 1):
                 continue
             if sum(1 for n in ast.walk(tree) if isinstance(n, ast.Name) and n.id == nm and isinstance(n.ctx, (ast.Store, ast.Del))) != 1:
                 continue
@@ -474,7 +477,7 @@ def _unroll_table_loops(tree: ast.Module) -> None:
                 for st in body:
                     literal_rows = None
                     if isinstance(st, ast.For) and isinstance(st.iter, (ast.Tuple, ast.List)) and 1 <= len(st.iter.elts) <= 6 and all(
-                            isinstance(r, ast.Tuple) and r.elts and all(isinstance(x, (ast.Name, ast.Constant, ast.Attribute)) for x in r.elts) for r in st.iter.elts) \
+                            isinstance(r, ast.Tuple) and r.elts and all(isinstance(x, (ast.Name, ast.Constant, ast.Attribute, ast.Lambda)) for x in r.elts) for r in st.iter.elts) \
                             and len({len(r.elts) for r in st.iter.elts}) == 1:
                         # the table is written in the loop header itself; attribute reads in it are read once per row either way
                         literal_rows = st.iter.elts
